@@ -72,7 +72,10 @@ def casings(word):
 
 def size_numbers(mult):
     ns = [0, 1, 7, 1023, 1024, T64 // mult - 1, T64 // mult, T64 // mult + 1, T63 // mult - 1, T63 // mult,
-          T63 // mult + 1, T63 - 1, T63, T63 + 1, T64 - 1, T64, T64 + 1, 10 ** 19, 10 ** 20 - 1, 10 ** 24 + 5]
+          T63 // mult + 1, T63 - 1, T63, T63 + 1, T64 - 1, T64, T64 + 1, 10 ** 19, 10 ** 20 - 1, 10 ** 24 + 5,
+          # beyond 64 bits: around 2^128 / mult and 2^128 (a product computed in a wider type and narrowed)
+          (1 << 128) // mult - 1, (1 << 128) // mult, (1 << 128) // mult + 1, (1 << 127), (1 << 128) - 1, 1 << 128,
+          (1 << 128) + 1, 10 ** 27, 10 ** 38, 10 ** 39, (1 << 64) * 1024, ((1 << 64) // mult) * (1 << 64)]
     return sorted(set(ns))
 
 
@@ -260,6 +263,8 @@ def cases(rng, tier):
             out += str_cases(kind, str(n))
             out += str_cases(kind, "000" + str(n), fmts=(rng.below(2),))
             for z in (n, -n, n + 1, -(n + 1)):
+                if abs(z) >= 1 << 128:
+                    continue             # the case syntax carries magnitudes below 2^128 (string forms carry the rest)
                 for f in (0, 1):
                     out.append([kind, 0, Zv(z), f])
             if n < T64 * 4:
